@@ -177,6 +177,89 @@ theorem judge_accepts_model (nodes : List Node) (g : Graph) (roots : List String
 theorem judge_iff_spec (deps : Nat → List Nat) (roots out : List Nat) :
     checkOrder deps roots out = true ↔ IsBuildOrder deps roots out := checkOrder_iff deps roots out
 
+/-! ### the order `cargo libcnb package` packages in (`execute`, `Model/DepGraph.lean` `packagingOrder`) -/
+
+/-- **The property on what `execute` does.** For every workspace whose buildpacks carry pairwise distinct ids and
+acyclic declared dependencies and every invocation directory: when `execute` gets as far as packaging, the sequence of
+buildpacks it hands to `package_buildpack` is non-empty and is a build order of its selection (`rootNodes`: the
+buildpack in the invocation directory, else every buildpack when invoked from the workspace root) — exactly the
+selected buildpacks and everything they transitively depend on, each once, every buildpack after all of its
+dependencies. -/
+theorem packaging_order (bps : List Located) (inv : String) (out : List String)
+    (hnd : ((bps.map (·.node)).map (·.id)).Nodup) (hac : Acyclic (depsOf (bps.map (·.node))))
+    (ho : packagingOrder bps inv = .ok out) :
+    IsBuildOrder (depsOf (bps.map (·.node))) (rootNodes bps inv) out ∧ out ≠ [] := by
+  unfold packagingOrder at ho
+  split at ho
+  · cases ho
+  · rename_i g hg
+    split at ho
+    · cases ho
+    · rename_i idx hidx
+      split at ho
+      · cases ho
+      · rename_i hne
+        simp only [Except.ok.injEq] at ho
+        subst ho
+        refine ⟨build_order_ids _ g _ idx hnd hg hac hidx, ?_⟩
+        intro h
+        apply hne
+        cases idx with
+        | nil => rfl
+        | cons _ _ => simp at h
+
+/-- **`execute` fails rather than dropping a dependency.** `execute` stops with the missing-dependency error exactly
+when some buildpack of the workspace declares a dependency on an id no buildpack of the workspace carries (whatever
+the selection), the error names such a dependency, and nothing is packaged. -/
+theorem packaging_missing_dependency_is_error (bps : List Located) (inv : String) :
+    ((∃ d, packagingOrder bps inv = .error (.missingDependency d)) ↔
+        ∃ nd ∈ bps.map (·.node), ∃ d ∈ nd.deps, d ∉ (bps.map (·.node)).map (·.id)) ∧
+      ∀ d, packagingOrder bps inv = .error (.missingDependency d) →
+        ∃ nd ∈ bps.map (·.node), d ∈ nd.deps ∧ d ∉ (bps.map (·.node)).map (·.id) := by
+  have hm := missing_dependency_is_error (bps.map (·.node))
+  have key : ∀ d, packagingOrder bps inv = .error (.missingDependency d) ↔ createGraph (bps.map (·.node)) = .error d := by
+    intro d
+    unfold packagingOrder
+    cases hc : createGraph (bps.map (·.node)) with
+    | error e => simp
+    | ok g =>
+      simp only
+      cases getDependencies g (rootNodes bps inv) with
+      | error r => simp
+      | ok out => by_cases h : out.isEmpty <;> simp [h]
+  refine ⟨⟨?_, ?_⟩, ?_⟩
+  · rintro ⟨d, h⟩
+    exact hm.1.1 ⟨d, (key d).1 h⟩
+  · intro h
+    obtain ⟨d, hd⟩ := hm.1.2 h
+    exact ⟨d, (key d).2 hd⟩
+  · intro d h
+    exact hm.2 d ((key d).1 h)
+
+/-- The roots `execute` selects are nodes of its own graph, so `get_dependencies` never reports an unknown root there. -/
+theorem packaging_roots_known (bps : List Located) (inv : String) (r : String) :
+    packagingOrder bps inv ≠ .error (.unknownRoot r) := by
+  intro h
+  unfold packagingOrder at h
+  split at h
+  · cases h
+  · rename_i g hg
+    split at h
+    · rename_i r' hr
+      obtain ⟨hmem, hnot⟩ := (unknown_root_is_the_only_error g (rootNodes bps inv)).2 r' hr
+      apply hnot
+      rw [(createGraph_ok hg).1]
+      unfold rootNodes at hmem
+      split at hmem
+      · rename_i b hb
+        simp only [List.mem_singleton] at hmem
+        subst hmem
+        exact List.mem_map.2 ⟨b.node, List.mem_map.2 ⟨b, List.mem_of_find?_eq_some hb, rfl⟩, rfl⟩
+      · split at hmem
+        · simpa [List.map_map] using hmem
+        · simp at hmem
+    · split at h <;> cases h
+
 /-! ### non-vacuity -/
 
 /-- a diamond with a tail: `3 → 1, 2`, `1 → 0`, `2 → 0`, `4 → 3`; ids `a … e` -/
@@ -227,5 +310,14 @@ example : Acyclic (depsOf sample) := by
 example : createGraph [⟨"a", ["b", "zz"]⟩, ⟨"b", []⟩] = .error "zz" := rfl
 
 example : getDependencies sampleGraph ["a", "nope"] = .error "nope" := rfl
+
+/-- `execute` on a workspace where a libcnb.rs buildpack (`bps/agent`) depends on a composite (`meta/base`) that the
+directory walk found later: invoked from the buildpack's directory and from the root, the dependency comes first -/
+def sampleWs : List Located := [⟨⟨"agent", ["base"]⟩, "bps/agent"⟩, ⟨⟨"base", ["leaf"]⟩, "meta/base"⟩, ⟨⟨"leaf", []⟩, "bps/leaf"⟩, ⟨⟨"solo", []⟩, "solo"⟩]
+
+example : packagingOrder sampleWs "bps/agent" = .ok ["leaf", "base", "agent"] := rfl
+example : packagingOrder sampleWs "." = .ok ["leaf", "base", "agent", "solo"] := rfl
+example : packagingOrder sampleWs "bps" = .error .noBuildpacksFound := rfl
+example : packagingOrder [⟨⟨"a", ["ghost"]⟩, "a"⟩, ⟨⟨"b", []⟩, "b"⟩] "b" = .error (.missingDependency "ghost") := rfl
 
 end CnbVerif.C13
